@@ -30,7 +30,7 @@ def dir_s(d, style='fp'):
 
 
 class Impl:
-    def __init__(self, await_all, style='fp', reason='UPLOAD_REJECTED', auth=False):
+    def __init__(self, await_all, style='fp', reason='UPLOAD_REJECTED', auth=False, with_progress=True):
         self.style = style
         self.reason = (' REASON=' + reason) if reason else ''   # control-spec: UPLOAD_REJECTED, UNEXPECTED, … or no REASON at all
         from harness.simtor import SimTor
@@ -51,11 +51,11 @@ class Impl:
             self.own = permid
             d = EphemeralAuthenticatedOnionService.create(None, self.cfg, ['80 127.0.0.1:8080'], auth=AuthBasic(['alice']), version=2,
                                                           await_all_uploads=await_all,
-                                                          progress=lambda p, t, s: self.progress.append(round(p, 1)))
+                                                          progress=(lambda p, t, s: self.progress.append(round(p, 1))) if with_progress else None)
         else:
             d = EphemeralOnionService.create(None, self.cfg, ['80 127.0.0.1:8080'], version=3,
                                              await_all_uploads=await_all,
-                                             progress=lambda p, t, s: self.progress.append(round(p, 1)))
+                                             progress=(lambda p, t, s: self.progress.append(round(p, 1))) if with_progress else None)
         d.addCallbacks(lambda r: self.result.append('ok'), lambda f: self.result.append('fail') and None)
         self.other = 'otherservice0001'
 
@@ -170,7 +170,8 @@ def run_impl(c):
         finally:
             last = im.finish()
         return [last]
-    im = Impl(c['await_all'], c.get('names', 'fp'), c.get('reason', 'UPLOAD_REJECTED'), auth=(c.get('kind') == 'ephauth'))
+    im = Impl(c['await_all'], c.get('names', 'fp'), c.get('reason', 'UPLOAD_REJECTED'), auth=(c.get('kind') == 'ephauth'),
+              with_progress=c.get('progress', True))
     trace = []
     for op in c['ops']:
         trace.append(im.do(op))
@@ -241,6 +242,7 @@ def gen_cases(rng, tier):
              'reason': rng.choice(['UPLOAD_REJECTED', 'UPLOAD_REJECTED', 'UNEXPECTED', None])}
         if k % 5 == 3:
             c['kind'] = 'ephauth'       # EphemeralAuthenticatedOnionService.create (basic authorisation)
+        c['progress'] = rng.random() < 0.5      # with or without a progress callback (the default is none)
         yield c
     if tier == 'thorough':
         scripts = []
@@ -257,7 +259,7 @@ def gen_cases(rng, tier):
                     if len(evs) > 5 and hash(perm) % 7:
                         continue
                     for aa in (False, True):
-                        yield {'await_all': aa, 'ops': [['reply']] + [evs[i] for i in perm]}
+                        yield {'await_all': aa, 'ops': [['reply']] + [evs[i] for i in perm], 'progress': bool(hash(perm) % 2)}
 
 
 def in_h(c):
